@@ -35,7 +35,7 @@ TIERS = {
         nj=["MC_NJ_quick3.cfg", "MC_NJ_quick4.cfg", "MC_NJ_quick5.cfg"],
         upgma=["MC_UPGMA_quick3.cfg", "MC_UPGMA_quick4.cfg", "MC_UPGMA_quick5.cfg"],
         dist=["MC_Distance_quick_all.cfg", "MC_Distance_quick_pair.cfg", "MC_Distance_quick_s4.cfg",
-              "MC_Distance_quick_blocks.cfg", "MC_Distance_quick_boundary.cfg"],
+              "MC_Distance_quick_blocks.cfg", "MC_Distance_quick_boundary.cfg", "MC_Distance_quick_singular.cfg"],
         calls=["MC_DistanceCalls_quick.cfg"],
         orders={3: "all", 4: 3, 5: 2, 6: 2},
         sample={},
@@ -167,7 +167,7 @@ def check(run: Run):
                 recs.sort(key=lambda r: json.dumps(r["to"]["seqs"]))
                 st["alignments"] = len(recs)
                 nontrivial += sum(any(p["diff"] > 0 for p in r["to"]["pairs"]) for r in recs)
-                plan = "full" if "blocks" in cfg or "boundary" in cfg else "small"
+                plan = "full" if "blocks" in cfg or "boundary" in cfg or "singular" in cfg else "small"
                 for r in recs:  # how often each estimator's domain classes are met (exact, from TLC)
                     for p in r["to"]["pairs"]:
                         for est, cl in p["cls"].items():
